@@ -101,7 +101,9 @@ def invariants(M, sysd, q, qd):
   return twoT / 2 + pot, mom, sum(M.mass, Rat.lift(0))
 
 
-def trial(U, links, seed, max_tries=80):
+def trial(U, links, seed, max_tries=80, before=None):
+  """before: another model stepped FIRST in the same session (the same process state: module-level caches of the analysed
+  program survive from one model to the next)."""
   for t in range(max_tries):
     avn.field_mode(seed * 104729 + t, decide=lambda nm: 1 if nm.kind == 'any' else None)
     avn.FIELD['sqrt_axiom'] = True
@@ -109,6 +111,12 @@ def trial(U, links, seed, max_tries=80):
     avn.set_repo(U.repo)
     avn.reset_atoms()
     try:
+      if before is not None:
+        Mb, sysb, taub = conservative(before)
+        try:
+          c05.simulate(U, 'generalized', sysb, Mb.q, Mb.qd, taub, 1)
+        except IndexError:
+          pass
       M, sysd, tau = conservative(links)
       if dual_parts(sysd.f['opt'].f['timestep']) != (0, 1):
         raise AnalysisError('C12: the time-step symbol is not the dual variable')
@@ -138,11 +146,23 @@ def run(U, rep, tier):
   s0 = int(os.environ.get('VERIF_SEED', '0') or 0)
   ntr = 2 if tier == 'quick' else 5
   calls = 0
-  for name, links, floating in MODELS + (MODELS_THOROUGH if tier == 'thorough' else []):
+  # the last instance steps a BRANCHED tree first and then, in the same session, a chain with the same link types and
+  # other parents: a statement "for all models" also covers the second model of a process
+  seq = ('a serial chain of three hinges stepped AFTER a branched tree with the same link types',
+         [dict(parent=-1, joints=H), dict(parent=0, joints=H), dict(parent=1, joints=H)], False,
+         [dict(parent=-1, joints=H), dict(parent=0, joints=H), dict(parent=0, joints=H)])
+  for inst in [m_ + (None,) for m_ in MODELS + (MODELS_THOROUGH if tier == 'thorough' else [])] + [seq]:
+    name, links, floating, before = inst
     badE = badP = None
     vac = False
     for t in range(ntr):
-      r = trial(U, links, s0 * 50 + t)
+      try:
+        r = trial(U, links, s0 * 50 + t, before=before)
+      except IndexError as e:
+        rep.fail('R12.1', 'energy is conserved to first order in dt [%s]' % name, 'the step indexes an array out of bounds on this '
+                 'model (%s): JAX clamps / drops silently and the result is not the step of this model' % e, where=f.where())
+        badE = 'oob'
+        break
       calls += r['calls']
       if r['E1'][0] != r['E0'][0] or r['E0'][1] != 0:
         raise AnalysisError('C12: the energy of the state at dt = 0 is not the initial energy (reference model inconsistent)')
@@ -153,6 +173,8 @@ def run(U, rep, tier):
       vac = vac or not r['moves']
     if vac:
       raise AnalysisError('C12 [%s]: the velocity has no first-order change in dt: vacuous instance' % name)
+    if badE == 'oob':
+      continue
     rep.check(badE is None, 'R12.1', 'energy is conserved to first order in dt [%s]' % name,
               'd/d(dt) of the total mechanical energy of the returned state at dt = 0 is not identically zero '
               '(random-interpretation trial %s): the local energy error is O(dt), so the drift over a fixed horizon does not '
